@@ -108,6 +108,52 @@ pub enum Ev {
     AuxEnd { aux: u16 },
     PanicInjected { node: u16, payload: String },
     Note(String),
+    /// Event of a component harness (C12, C13, C15).
+    Comp(CompEv),
+}
+
+#[derive(Clone, Copy, Debug, Serialize, PartialEq)]
+pub enum QRes {
+    Ok,
+    Full,
+    Closed,
+    Empty,
+    Val(u64),
+}
+
+#[derive(Clone, Debug, Serialize, PartialEq)]
+pub enum CompEv {
+    // raw queue
+    QInvoke { thread: u8, op: crate::case::QOp },
+    QReturn { thread: u8, op: crate::case::QOp, res: QRes },
+    QLenFinal { len: usize, held: bool },
+    QDrained { rest: Vec<u64> },
+    // asynchronous channel
+    SendInvoke { p: u8, v: u64 },
+    SendReturn { p: u8, v: u64, ok: bool },
+    RecvInvoke,
+    RecvReturn { v: Option<u64> },
+    CloseInvoke { by_receiver: bool },
+    CloseReturn { by_receiver: bool },
+    ChanLenFinal { len: usize },
+    // task
+    TPollBegin { n: u64, overlap: bool, after_done: bool, after_drop: bool },
+    TPollEnd { n: u64, ready: bool, panicked: bool },
+    TFutureDropped { while_polling: bool },
+    TOutputDropped,
+    TScheduled { live: i64 },
+    TOpBegin { thread: u8, op: crate::case::TOp },
+    TOpEnd { thread: u8, op: crate::case::TOp },
+    /// 0 = pending, 1 = ready (expected value), 2 = cancelled, 9 = ready with a wrong value.
+    TPromise { thread: u8, stage: u8 },
+    TDrainBegin,
+    TDrainEnd { completed: bool, future_drops: u64 },
+    TFinal { polls: u64, completed: bool, future_drops: u64, output_drops: u64, runnables_live: i64 },
+    // time cell
+    TimeWritten { idx: u64 },
+    /// `idx`: index of the value read in the written sequence, -1 = not a value that was ever written, -2 = `try_read` failed.
+    TimeRead { reader: u8, published: u64, idx: i64, raw: Option<(i64, u32)>, blocking: bool },
+    TimeFinal { idx: i64 },
 }
 
 #[derive(Clone, Copy, Debug, Serialize, PartialEq)]
